@@ -3,6 +3,10 @@ CONSTANTS ConvChoices <- ConvQuick
   RangeLows <- LowsSmall
   RangeUps <- UpsSmall
 INVARIANT OnePointPerCell
+INVARIANT BadModeRaises
+INVARIANT BothRangesRaise
+INVARIANT CsvEnds
+INVARIANT CsvPasses
 INVARIANT IteratorsAgree
 INVARIANT RangesChecked
 INVARIANT CsvOneRowPerCell
